@@ -25,7 +25,33 @@ import table_layout  # noqa: E402
 
 LEVEL = "proof"
 
-MUTATION_DRILLS = []  # filled in below (static record of the drills that were run by hand)
+# Static record of the drills run by hand on 2026-09-29 (scratch worktree /var/tmp/wt-c06 of /repo at 44f49d3+,
+# `VERIF_REPO=/var/tmp/wt-c06 VERIF_CACHE=/var/tmp/rime-verif-c06 bin/check C06 quick`, then the unit-test suite of the
+# same worktree).  Every mutation compiles; each was reported with a concrete failing source (found_input=True).
+MUTATION_DRILLS = [
+    {"mutation": "table.cc BuildTailIndex: drop the last entry of every tail page (index->size -= 1)",
+     "fired": "VIOLATION enumeration:within-budget:lost (a >3-syllable source row is not enumerated)", "unit_tests": "1 failed"},
+    {"mutation": "table.cc BuildTailIndex: copy the extra code from one syllable too early (off by one)",
+     "fired": "VIOLATION enumeration:within-budget:lost (entry attached to another code)", "unit_tests": "2 failed"},
+    {"mutation": "vocabulary.cc ShortDictEntry::operator<: weight < other.weight (ascending)",
+     "fired": "VIOLATION enumeration:within-budget:weight-order", "unit_tests": "2 failed"},
+    {"mutation": "dict_compiler.cc BuildTable: rows with weight 0 are not put into the vocabulary",
+     "fired": "VIOLATION enumeration:within-budget:lost", "unit_tests": "87 passed (not detected by the test suite)"},
+    {"mutation": "dict_compiler.cc BuildTable: syllable ids rotated by one ((id+1) % S)",
+     "fired": "VIOLATION enumeration:within-budget:lost", "unit_tests": "3 failed"},
+    {"mutation": "table.cc BuildEntryList: dest->size one less than the list for lists longer than 2",
+     "fired": "VIOLATION enumeration:within-budget:lost", "unit_tests": "1 failed + crash"},
+    {"mutation": "reverse_lookup_dictionary.cc ReverseDb::Build: the page of syllable id 0 is skipped",
+     "fired": "VIOLATION enumeration:within-budget:reverse-lookup", "unit_tests": "87 passed (not detected by the test suite)"},
+    {"mutation": "table.cc PhraseIndexSize: the extra-code bytes of long entries are not counted",
+     "fired": "VIOLATION enumeration:within-budget:not-loadable (capacity below the model's exact size, file remapped)",
+     "unit_tests": "87 passed (not detected by the test suite)"},
+    {"mutation": "table.cc OnBuildFinish: metadata_/syllabary_/index_ not looked up again after the image allocation",
+     "fired": "VIOLATION table-build:over-budget + proof broken (translator: bf_rederive_after_image=false, C06_current_build_facts_sound fails)",
+     "unit_tests": "87 passed (not detected by the test suite)"},
+    {"mutation": "git revert 44f49d3 (the fix: estimate back to 4096+32S+64N)",
+     "fired": "VIOLATION table-build:over-budget + proof broken (translator: EstLinear)", "unit_tests": "87 passed (not detected by the test suite)"},
+]
 
 # ---------------------------------------------------------------------------------------------
 # helpers
